@@ -1017,6 +1017,18 @@ func hostileStreams(r *lib.Rand, group int) [][]byte {
 		for i := 0; i < 120; i++ {
 			m := methods[r.Intn(len(methods))]
 			p := paths[r.Intn(len(paths))]
+			if r.Chance(65) { // mostly the method the route is registered with
+				switch {
+				case p == "/ping" || p == "/info" || p == "/stats" || strings.HasPrefix(p, "/debug/pprof"):
+					m = "GET"
+				case p == "/debug/setblockrate":
+					m = "PUT"
+				case strings.HasPrefix(p, "/config/"):
+					m = []string{"GET", "PUT"}[r.Intn(2)]
+				default:
+					m = "POST"
+				}
+			}
 			q := fmt.Sprintf("topic=%s&channel=%s&defer=%s&binary=%s&rate=%s&format=%s", vals[r.Intn(len(vals))], vals[r.Intn(len(vals))],
 				vals[r.Intn(len(vals))], vals[r.Intn(len(vals))], vals[r.Intn(len(vals))], vals[r.Intn(len(vals))])
 			body := string(r.Bytes(r.Intn(400)))
